@@ -88,6 +88,9 @@ func (c *conn) hook(ctx context.Context, op, sql string) error {
 			}
 			var sf *StmtFault
 			if errors.As(err, &sf) {
+				if sf.Late && (op == "exec" || op == "query") {
+					return &lateFault{f: sf}
+				}
 				// the statement failed on the server: an open transaction is now aborted
 				c.s.MarkFailed()
 				return &pgconn.PgError{Severity: "ERROR", Code: sf.Code, Message: "injected: " + sf.Msg}
@@ -105,7 +108,46 @@ func (e *BadConnFault) Error() string { return "injected: connection failure: " 
 
 // StmtFault is returned by a CallHook to make the statement fail with an SQL error
 // (the transaction, if any, becomes aborted as after any failed statement).
-type StmtFault struct{ Code, Msg string }
+//
+// Late (exec/query inside a transaction only): the server reports the error AFTER the
+// statement did its work, the way a deadlock is reported to an INSERT that formed its
+// row (nextval already evaluated) and then waited on a unique index entry of an
+// in-progress transaction. The statement is executed, then the transaction is marked
+// aborted and the error returned: everything the statement wrote is undone by the
+// ROLLBACK / ROLLBACK TO SAVEPOINT that must follow, except what Postgres never rolls
+// back (sequence advances: 9.17 "nextval operations are never rolled back").
+type StmtFault struct {
+	Code, Msg string
+	Late      bool
+}
+
+// lateFault carries a Late StmtFault from conn.hook to ExecContext / QueryContext.
+type lateFault struct{ f *StmtFault }
+
+func (e *lateFault) Error() string { return "injected: late statement failure: " + e.f.Msg }
+
+// late splits the result of conn.hook: a Late statement fault is handed back to the
+// caller (which runs the statement first), anything else is a plain error.
+func (c *conn) late(err error) (*StmtFault, error) {
+	var lf *lateFault
+	if errors.As(err, &lf) {
+		if !c.s.InTx() {
+			return nil, engineErr("late statement fault outside a transaction is not supported")
+		}
+		return lf.f, nil
+	}
+	return nil, err
+}
+
+// failLate ends a statement that carried a Late fault: its own error wins; otherwise the
+// open transaction becomes aborted and the injected error is the statement's result.
+func (c *conn) failLate(f *StmtFault, err error) error {
+	if err != nil {
+		return err
+	}
+	c.s.MarkFailed()
+	return &pgconn.PgError{Severity: "ERROR", Code: f.Code, Message: "injected: " + f.Msg}
+}
 
 func (e *StmtFault) Error() string { return "injected: statement failure: " + e.Msg }
 
@@ -139,7 +181,8 @@ func toValues(args []driver.NamedValue) ([]Value, error) {
 }
 
 func (c *conn) ExecContext(ctx context.Context, query string, args []driver.NamedValue) (driver.Result, error) {
-	if err := c.hook(ctx, "exec", query); err != nil {
+	late, err := c.late(c.hook(ctx, "exec", query))
+	if err != nil {
 		return nil, err
 	}
 	params, err := toValues(args)
@@ -150,6 +193,13 @@ func (c *conn) ExecContext(ctx context.Context, query string, args []driver.Name
 	if trace {
 		traceOut(c.s.ID, query, rs, err)
 	}
+	if late != nil {
+		err = c.failLate(late, convertErr(err))
+		if trace {
+			traceOut(c.s.ID, "-- late fault on the statement above", nil, err)
+		}
+		return nil, err
+	}
 	if err != nil {
 		return nil, convertErr(err)
 	}
@@ -157,7 +207,8 @@ func (c *conn) ExecContext(ctx context.Context, query string, args []driver.Name
 }
 
 func (c *conn) QueryContext(ctx context.Context, query string, args []driver.NamedValue) (driver.Rows, error) {
-	if err := c.hook(ctx, "query", query); err != nil {
+	late, err := c.late(c.hook(ctx, "query", query))
+	if err != nil {
 		return nil, err
 	}
 	params, err := toValues(args)
@@ -167,6 +218,13 @@ func (c *conn) QueryContext(ctx context.Context, query string, args []driver.Nam
 	rs, _, err := c.s.Exec(query, params)
 	if trace {
 		traceOut(c.s.ID, query, rs, err)
+	}
+	if late != nil {
+		err = c.failLate(late, convertErr(err))
+		if trace {
+			traceOut(c.s.ID, "-- late fault on the statement above", nil, err)
+		}
+		return nil, err
 	}
 	if err != nil {
 		return nil, convertErr(err)
